@@ -254,10 +254,14 @@ def fixtures_roundtrip(ctx):
         x = {"free": [1, 2], "stale": [2], "newerFirst": False, "hdr": 2}
         # key tables of the re-encoded file may need more than one page: the planner sizes them
         blob = build_file(x, nodes, random.Random(5))
-        hf2 = decode_real(blob)
         ctx.case(key=("fixture", name), nontrivial=True, sample={"fixture": name, "entries": len(nodes)})
         ctx.traces_validated += 1
-        if not same(hf2.as_dict(), want):
+        try:
+            got2 = decode_real(blob).as_dict()
+        except Exception as e:  # noqa: BLE001
+            ctx.violation({"fail": "fixture-roundtrip", "fixture": name, "exc": type(e).__name__}, {"fixture": name, "error": repr(e)[:300]})
+            continue
+        if not same(got2, want):
             ctx.violation({"fail": "fixture-roundtrip", "fixture": name}, {"fixture": name, "entries": len(nodes)})
 
 
